@@ -132,4 +132,34 @@ structure GoodParams (P : Params) : Prop where
 def peakPositions (P : Params) (ref qry : OMap) (rev : Bool) (it peak : Int) : List APos :=
   engineAlign P.md ref qry peak (peak + qry.length) rev it
 
+/-! ### relabelling of query labels / erasure of the unobservable `source` (C09, C11) -/
+
+/-- change query label numbers by `σ` and the `source` field by `τ`; everything else is kept -/
+def relabelPr (σ τ : Int → Int) (p : Pr) : Pr :=
+  { r := p.r, q := ⟨σ p.q.site, p.q.pos⟩, shift := p.shift, src := τ p.src }
+
+def relabelAPos (σ τ : Int → Int) : APos → APos
+  | .pair p   => .pair (relabelPr σ τ p)
+  | .uref r   => .uref r
+  | .uqry q s => .uqry ⟨σ q.site, q.pos⟩ s
+
+def relabelSeg (σ τ : Int → Int) (s : Seg) : Seg := ⟨s.peak, s.items.map (relabelAPos σ τ)⟩
+
+/-- erase `source` everywhere in a row -/
+def eraseSrcRow (r : Row) : Row :=
+  { r with segments := r.segments.map (relabelSeg id (fun _ => 0)) }
+
+/-- the mirror image of a candidate row: query labels renumbered k ↦ n+1−k, strand flipped,
+    query start/end exchanged -/
+def mirrorRow (n : Int) (r : Row) : Row :=
+  { r with segments := r.segments.map (relabelSeg (fun k => n + 1 - k) id), rev := !r.rev,
+           qStart := r.qEnd, qEnd := r.qStart }
+
+/-- no reference label of the search window has two query labels at the same distance within
+    maxDistance (true on a lattice when maxDistance is below half the lattice step) -/
+def NoTies (md start : Int) (refs qs : List Lbl) : Prop :=
+  ∀ r ∈ refs, ∀ q ∈ qs, ∀ q' ∈ qs, q ≠ q' →
+    (offset start r q).natAbs ≤ md → (offset start r q').natAbs ≤ md →
+    (offset start r q).natAbs ≠ (offset start r q').natAbs
+
 end Coma.Spec
